@@ -47,6 +47,7 @@ def configs(tier):
         cfgs.append(dict(group='ctor', k=k))
         for tg in (True, False):
             cfgs.append(dict(group='step', k=k, targets=tg))
+        cfgs.append(dict(group='step', k=k, targets=True, unlabelled=True))      # the arrival has no label (y=None)
         for j in range(0, k):
             cfgs.append(dict(group='fill', k=k, j=j))
     for dt in ('int8', 'uint8', 'int16', 'int32', 'int64'):
@@ -121,7 +122,7 @@ def _step(env, cfg, ctx):
     k = cfg['k']
     st, rows, ys = build_storage(env, 'uniform', NAMES, k, store_targets=cfg['targets'], cap=k, stem='old')
     n, W, nxt = st.stored_samples, st._algo_wt, st._algo_l_counter
-    x_new, y_new = sym_row(env, NAMES, 'new'), env.real('new_y')
+    x_new, y_new = sym_row(env, NAMES, 'new'), (None if cfg.get('unlabelled') else env.real('new_y'))
     n0 = len(ctx.py_random.calls)
     guarded(env, 'update', st.update, x_new, y_new)
     calls = ctx.py_random.calls[n0:]
@@ -245,7 +246,7 @@ def _grid_divergence(k):
     return out
 
 
-def _monte_carlo(k, n, runs, seed, dtype=None):
+def _monte_carlo(k, n, runs, seed, dtype=None, unlabelled=False):
     mod = sys.modules['ixai.storage.uniform_reservoir_storage']
     saved = (mod.random, mod.np, mod.__dict__.get('float'))
     counts = [0] * n
@@ -255,9 +256,12 @@ def _monte_carlo(k, n, runs, seed, dtype=None):
         rng = _real_random.Random(seed)
         mod.random = rng
         for _ in range(runs):
-            st = UniformReservoirStorage(size=k if dtype is None else getattr(_real_np, dtype)(k), store_targets=False)
+            st = UniformReservoirStorage(size=k if dtype is None else getattr(_real_np, dtype)(k), store_targets=unlabelled)
             for t in range(n):
-                st.update({'f0': t}, None)
+                if unlabelled and t % 2 == 0:
+                    st.update({'f0': t}, float(t))      # every other observation carries a label, the rest none
+                else:
+                    st.update({'f0': t}, None)
             for r in st.get_data()[0]:
                 counts[r['f0']] += 1
     finally:
@@ -282,8 +286,8 @@ def _concrete_replay(env, cfg):
         with __import__('warnings').catch_warnings():
             __import__('warnings').simplefilter('ignore')
             try:
-                freq = _monte_carlo(kk, nn, runs, seed + 17, dt)
-            except (ArithmeticError, ValueError, TypeError) as exc:
+                freq = _monte_carlo(kk, nn, runs, seed + 17, dt, unlabelled=bool(cfg.get('unlabelled')))
+            except (ArithmeticError, ValueError, TypeError, IndexError) as exc:
                 env.claim('uniform_inclusion_probabilities', False,
                           detail=f"real class, capacity {dt or 'int'}({kk}), stream of {nn}: update raised {type(exc).__name__}: {exc}")
                 return
